@@ -14,7 +14,7 @@ import (
 // Observed: every executed instruction (verif step hook) with the operand
 // depth before and after, operands, jump targets, slot indexes, call/return
 // boundaries and the caller's locals. Oracle: the online trace specification
-// in internal/mon (T1..T7) plus T8 (no residual values) — independent of the
+// in internal/mon (T1..T7, T9: a new frame starts with blank local slots) plus T8 (no residual values) — independent of the
 // compiler, it only looks at what executes.
 
 func init() { register("C07", &Check{Run: runC07, Replay: replayC07}) }
